@@ -1,7 +1,7 @@
 import HyperModel.Generated.FactsC28
 /-!
 Model of `codec/address.go` (property C28) **with the repair of
-`/verif/fixes/C28-address-length-check.patch`** (`UnmarshalText` rejects a checksummed
+`/verif/fixes/C28-address-length-check.patch`** (committed in /repo as 8bfec18) (`UnmarshalText` rejects a checksummed
 payload whose length is not `AddressLen`).  Core Lean only.
 
 Go strings and byte slices are lists of bytes; a byte is a `Nat` (theorems carry the
